@@ -69,7 +69,7 @@ LEAFSETS = [LEAVES,
             ['y' * 20, 'y' * 19, 'y' * 18]]
 LENGTH_APIS = ('visualize.trim_long_fields', 'graphviz.render(max_str_length)',
                'as_str_flattened', 'graphviz.render', 'repr')
-MUT_MENU = ['cfgmut', 'cfg', 'list2', 'dict1', 'tv']
+MUT_MENU = ['cfgmut', 'cfg', 'list2', 'dict1', 'tv', 'list0', 'dict0']
 NCHUNK = 48
 
 
